@@ -469,6 +469,7 @@ class SyncService(Service):
         self.packetize = packetize or (lambda b, kind: [b])
         self.fail = fail
         self.bad_id = bad_id       # None or dict(at=..., id=4 bytes) : answer with a (known) record id that is not valid at that point
+        self.truncate_recv = None
         self.buf = SymBytes()
         self.cur = None            # current push: [pathmode, chunks, mtime]
         self.failed = False
@@ -590,6 +591,11 @@ class SyncService(Service):
                         break
                 if not stopped:
                     out = out + sync_rec(b'DONE', 0)
+                if self.truncate_recv is not None:
+                    # the device dies in the middle of the transfer: part of the stream, then CLSE
+                    self.reply(s, out[:self.truncate_recv], 'RECV')
+                    s.clse(tag='abort')
+                    continue
                 self.reply(s, out, 'RECV')
 
 
